@@ -409,6 +409,14 @@ Definition trig_batch (s : store) (ks : list path) : bool :=
 Definition is_file_at (s : store) (k : path) : bool :=
   match find_node s k with Some (File _) => true | _ => false end.
 
+(* 8: a copy-source range that starts exactly at the end of the source: the filer's range parser
+   answers 206 with zero bytes (C32, finding 2) and an empty part is stored *)
+Definition range_at_end (s : store) (k : path) (r : option (N * N)) : bool :=
+  match find_node s k, r with
+  | Some (File f), Some (a, _) => a =? file_size f
+  | _, _ => false
+  end.
+
 Definition flag (k : N) (b : bool) : list N := if b then [k] else [].
 
 (* ---------- the step function ---------- *)
@@ -463,7 +471,8 @@ Definition step (c : cfg) (st : state) (o : op) : state * res * list N :=
                    (* no check that the upload exists: the part file (and its directory) is simply written *)
                    let d := match u_dir up with Some d => d | None => [] end in
                    (set_updir st u up (Some (dir_put (part_name n) (store_body c data) d)), ROk,
-                    flag 6 (is_dir_at s src) ++ flag 7 (match u_dir up with None => true | Some _ => false end))
+                    flag 6 (is_dir_at s src) ++ flag 7 (match u_dir up with None => true | Some _ => false end) ++
+                    flag 8 (range_at_end s src r))
                end
       end
   | MpComplete u =>
